@@ -7,6 +7,7 @@ import Complgen.Cert.Det
 import Complgen.Spec.Den
 import Complgen.Gen.Chains
 import Complgen.Gen.Tables
+import Complgen.Gen.Diag
 
 open Complgen
 
@@ -132,6 +133,8 @@ def handle (line : String) : String :=
       | .expr e => s!"expr {e.text.trimAsciiEnd.toString}"
       | .anyWord => "anyword"
     | _, _, _ => "bad-op"
+  | ["labels"] =>
+    "ok " ++ " ".intercalate (Gen.diagLabels.map fun (k, v) => s!"{Hex.encode k}:{Hex.encode v}")
   | ["canon", a] =>
     match parseKAuto a with
     | some a => match canonK a with
